@@ -105,6 +105,7 @@ type SpecDB struct {
 	Files     []string
 	SortAlias map[string][2]string // name -> (Go type expression, package path)
 	Ghosts    map[string][2]string // ghost variable -> (sort name, package path)
+	GhostVia  map[string]string    // ghost variable -> Go type whose holders may change it
 	Guards    []*Guard
 }
 
@@ -117,7 +118,7 @@ type Guard struct {
 }
 
 func NewSpecDB() *SpecDB {
-	return &SpecDB{Contracts: map[string]*Contract{}, UFuns: map[string]*UFun{}, Defines: map[string]*Define{}, SortAlias: map[string][2]string{}, Ghosts: map[string][2]string{}}
+	return &SpecDB{Contracts: map[string]*Contract{}, UFuns: map[string]*UFun{}, Defines: map[string]*Define{}, SortAlias: map[string][2]string{}, Ghosts: map[string][2]string{}, GhostVia: map[string]string{}}
 }
 
 var (
@@ -202,6 +203,12 @@ func (db *SpecDB) LoadContractFile(path, defaultPkg string) error {
 			cur = nil
 		case "ghost":
 			f := strings.Fields(rest)
+			if len(f) == 4 && f[2] == "via" {
+				// ghost <name> <sort> via <Go type>: a call without contract that is handed a value of that
+				// type may change the ghost (e.g. a context.Context can be polled by whoever receives it)
+				db.GhostVia[f[0]] = f[3]
+				f = f[:2]
+			}
 			if len(f) != 2 {
 				return fail(l.n, "bad ghost declaration %q", rest)
 			}
